@@ -1,7 +1,7 @@
 (** C14 -- scripts execute exactly the command sequence their block structure
     prescribes; unbalanced scripts are diagnosed. Statements only. *)
 From Cicada Require Import Base.Chars Base.Peg Gen.LocustGrammar Model.Script Model.ScriptAst
-  Proofs.ScriptProofs Proofs.PegProofs.
+  Proofs.ScriptProofs Proofs.PegProofs Proofs.LocustParse.
 From Coq Require Import ZArith String Ascii.
 
 (** 1. The interpreter of scripting.rs (run_exp and its helpers, transcribed),
@@ -57,9 +57,31 @@ Ltac prove_parse_ok :=
     end
   end.
 
-Theorem C14_parse_partial :
+Theorem C14_parse_instances :
   (wfp_block wit1 = true /\ parse_ok wit1) /\ (wfp_block wit2 = true /\ parse_ok wit2).
 Proof. split; split; [vm_compute; reflexivity | prove_parse_ok | vm_compute; reflexivity | prove_parse_ok]. Qed.
+
+(** The proved fragment of C14_parse_full, UNBOUNDED: flat scripts -- any number of command lines
+    (break / continue included), no indentation; every line free of CR / LF, not starting or ending
+    with white space, not starting with `if `, `for `, `else if `, `else`, `fi`, `while `, `done`
+    ([frag_flat]).  For every such script the generic PEG interpreter on the regenerated grammar
+    returns, for all sufficiently large fuel, the complete parse whose trimmed tree is
+    tree_of_script (induction over the lines, per-rule lemmas in Proofs/LocustParse.v) ... *)
+Theorem C14_parse_partial : forall b, frag_flat b = true ->
+  exists kids,
+    evals l_grammar (PRef L_EXP) AtNon 0 (render_block b) (POk (List.length (render_block b)) nil kids) /\
+    map (fun k => strip_eoi L_EOI (annotate (render_block b) k)) kids = (tree_of_script b :: nil).
+Proof. exact parse_flat. Qed.
+
+(** ... and with the fuel parse_from computes from the input it is that result or OutOfFuel, never
+    a different tree or a failure. (The real parser has no fuel; L1a never saw OutOfFuel.) *)
+Theorem C14_parse_partial_from : forall b, frag_flat b = true ->
+  parse_from l_grammar L_EXP (render_block b) = PFuel \/ parse_ok b.
+Proof. exact parse_flat_from. Qed.
+
+Example C14_parse_partial_nonvacuous :
+  frag_flat (BCons (SCmd nil (S2 "echo a  b")) (BCons (SBreak nil) (BCons (SCmd nil (S2 "ls | wc; date")) BNil))) = true.
+Proof. vm_compute. reflexivity. Qed.
 
 (** 3. Unbalanced scripts. If the start rule is anchored at end of input, a
     successful parse has consumed the whole text (so a text whose remainder does
@@ -90,35 +112,22 @@ Definition log_words (w : list str) (_ : str) : list str * list str := (w, nil).
 Definition run_logged (text : str) : option (outcome (list str)) :=
   run_lines (list str) log_run log_words (fun w _ _ => w) (fun _ => false) 8 text nil.
 
-(** With the grammar as it is in the source tree (start rule EXP not anchored):
-    the parse of the unbalanced script SUCCEEDS after the first line, and
-    run_lines runs exactly that line -- the rest is dropped without a diagnostic,
-    the list of results is that of `echo start` alone (status 0). Same for a stray fi.
-    Stated under the decidable hypothesis that the regenerated start rule is not
-    anchored, so that the statement survives the repair (it becomes vacuous). *)
-Theorem C14_unbalanced_refuted : top_anchored l_grammar L_EXP = false ->
-  parse_from l_grammar L_EXP unbalanced_example =
-    POk 11 (skipn 11 unbalanced_example) (Node L_EXP 0 11 (Node L_CMD 0 11 nil :: nil) :: nil)
-  /\ run_logged unbalanced_example = Some (Done (S2 "echo start" :: nil) (0%Z :: nil) false false)
-  /\ run_logged stray_fi_example = Some (Done (S2 "echo one" :: nil) (0%Z :: nil) false false)
-  /\ ~ diagnoses_unbalanced.
-Proof.
-  intro H.
-  assert (E : parse_from l_grammar L_EXP unbalanced_example =
-              POk 11 (skipn 11 unbalanced_example) (Node L_EXP 0 11 (Node L_CMD 0 11 nil :: nil) :: nil)).
-  { revert H. vm_compute. intro H; first [reflexivity | discriminate H]. }
-  split; [exact E|]. split; [|split].
-  - revert H. vm_compute. intro H; first [reflexivity | discriminate H].
-  - revert H. vm_compute. intro H; first [reflexivity | discriminate H].
-  - intro D. specialize (D _ _ _ _ E). revert D. vm_compute. discriminate.
-Qed.
+(** The start rule of the grammar regenerated from the source tree IS anchored at end of input
+    (repaired in 44451af; this is re-checked against grammar.pest on every run) ... *)
+Theorem C14_anchored : top_anchored l_grammar L_EXP = true.
+Proof. vm_compute. reflexivity. Qed.
 
-Theorem C14_refuted : top_anchored l_grammar L_EXP = false -> ~ C14_full.
-Proof. intros H [_ D]. exact (proj2 (proj2 (proj2 (C14_unbalanced_refuted H))) D). Qed.
+(** ... hence a parse that succeeds has consumed the whole script: a text whose remainder cannot be
+    parsed (unclosed if / for / while, stray fi / done / else) is a parse failure, which run_lines
+    reports as a syntax error, running nothing. *)
+Theorem C14_unbalanced_diagnosed : diagnoses_unbalanced.
+Proof. intros text p r k. exact (C14_anchor_sound l_grammar L_EXP C14_anchored text p r k). Qed.
 
-(** ... and once the start rule is anchored, the second half of the property holds. *)
-Theorem C14_anchored_diagnoses : top_anchored l_grammar L_EXP = true -> diagnoses_unbalanced.
-Proof. intros H text p r k. exact (C14_anchor_sound l_grammar L_EXP H text p r k). Qed.
+(** Instances: the two scripts that used to be cut silently are now rejected, and run_lines runs nothing. *)
+Theorem C14_unbalanced_examples :
+  parse_from l_grammar L_EXP unbalanced_example = PFail /\ run_logged unbalanced_example = None /\
+  parse_from l_grammar L_EXP stray_fi_example = PFail /\ run_logged stray_fi_example = None.
+Proof. vm_compute. repeat split. Qed.
 
 Check C14_interp :
   forall (W : Type) (run_line : W -> str -> W * list Z) (for_words : W -> str -> W * list str)
@@ -156,6 +165,9 @@ Proof. vm_compute. repeat split. Qed.
 
 Print Assumptions C14_interp.
 Print Assumptions C14_parse_partial.
+Print Assumptions C14_parse_partial_from.
+Print Assumptions C14_parse_instances.
 Print Assumptions C14_anchor_sound.
-Print Assumptions C14_unbalanced_refuted.
-Print Assumptions C14_refuted.
+Print Assumptions C14_anchored.
+Print Assumptions C14_unbalanced_diagnosed.
+Print Assumptions C14_unbalanced_examples.
